@@ -1,12 +1,15 @@
 CONSTANTS
-  Procs = {1, 2, 3}
-  Kinds = {"out"}
+  Procs = {1, 2}
+  Kinds = {"out", "int"}
   LKinds = {"key"}
-  Cap <- MCCap1
-  Mode = "shadow"
+  Cap <- MCCap
+  Mode = "enforce"
   Lazy = TRUE
   MaxOps = 3
   MaxHeld = 1
+  OpSet = {"debit", "local", "retain", "finish"}
+  Atomic = FALSE
+  GtBug = FALSE
 SPECIFICATION Spec
 INVARIANTS TypeOK AcceptedNeverExceedsCap ShadowNeverRejects ShadowRecordsCrossing OffCountsNothing RequiredRejectionLatches
   BestEffortDoesNotLatch LatchedIsExhausted RefsOK PublishOnce PublishedWhenQuiescent
